@@ -188,6 +188,9 @@ pub struct FoundViolation {
     pub run: u64,
     pub violation: Violation,
     pub scenario: serde_json::Value,
+    /// found by a worker built with the release profile
+    #[serde(default)]
+    pub release: bool,
 }
 
 #[derive(Clone, Debug, Serialize, Deserialize)]
@@ -201,6 +204,9 @@ pub struct ReplayFile {
     pub minimised: bool,
     pub original_ops: usize,
     pub ops: usize,
+    /// build profile of the worker that found it ("debug" or "release")
+    #[serde(default)]
+    pub profile: String,
     pub scenario: serde_json::Value,
 }
 
